@@ -451,3 +451,80 @@ Definition bstep (k_fc : N) (ds : list descriptor) (s : bstate) (c : bcall) : op
   | CId => Some (match take_id s with Some (id, s1) => (s1, BVal id) | None => (s, BPanic) end)
   | CSetVersion a b => Some (set_version s a b, BUnit)
   end.
+
+(** ---- read-only / derived public methods, modelled beside [bstep]
+    (they do not change the module; [None] = the Rust code panics) ---- *)
+Definition OP_RETURN : N := 253.
+Definition OP_RETURN_VALUE : N := 254.
+Definition OP_NAME : N := 5.
+
+(** find_return_block_indices (as repaired: a block without instructions is
+    simply not a return block; the selected function is indexed directly) *)
+Fixpoint ret_blocks (k : nat) (bl : list (block inst)) : list nat :=
+  match bl with
+  | [] => []
+  | b :: r =>
+      (match rev (b_insts inst b) with
+       | last :: _ => if N.eqb (i_opcode last) OP_RETURN || N.eqb (i_opcode last) OP_RETURN_VALUE then [k] else []
+       | [] => []
+       end) ++ ret_blocks (S k) r
+  end.
+
+Definition find_return_blocks (s : bstate) : option (list nat) :=
+  match bs_fn s with
+  | None => Some []
+  | Some f => match nth_error (m_functions inst (bs_module s)) f with
+              | None => None
+              | Some fn => Some (ret_blocks 0 (f_blocks inst fn))
+              end
+  end.
+
+(** select_function_by_name: first OpName whose string equals [name] and whose
+    target is the result id of a function definition; `operands[0]`,
+    `operands[1]`, `def.unwrap()`, `result_id.unwrap()` can panic *)
+Inductive sres := SFound (idx : nat) | SNone | SPanic.
+
+Fixpoint find_fn_by_id (k : nat) (fs : list (func inst)) (id : N) : sres :=
+  match fs with
+  | [] => SNone
+  | f :: r =>
+      match f_def inst f with
+      | None => SPanic
+      | Some d => match i_rid d with
+                  | None => SPanic
+                  | Some x => if N.eqb x id then SFound k else find_fn_by_id (S k) r id
+                  end
+      end
+  end.
+
+Fixpoint fn_by_name (names : list inst) (fs : list (func inst)) (name : list N) : sres :=
+  match names with
+  | [] => SNone
+  | dbg :: r =>
+      if N.eqb (i_opcode dbg) OP_NAME then
+        match i_ops dbg with
+        | [] => SPanic
+        | OIdRef t :: rest =>
+            match rest with
+            | [] => SPanic
+            | OStr s :: _ =>
+                if list_eqb N.eqb s name then
+                  match find_fn_by_id 0 fs t with
+                  | SFound k => SFound k
+                  | SPanic => SPanic
+                  | SNone => fn_by_name r fs name
+                  end
+                else fn_by_name r fs name
+            | _ :: _ => fn_by_name r fs name
+            end
+        | _ :: _ => fn_by_name r fs name
+        end
+      else fn_by_name r fs name
+  end.
+
+Definition select_function_by_name (s : bstate) (name : list N) : option (bstate * bout) :=
+  match fn_by_name (m_debug_names inst (bs_module s)) (m_functions inst (bs_module s)) name with
+  | SFound k => Some (select_function s (Some k))
+  | SNone => Some (s, BFail BFunctionNotFound)
+  | SPanic => None
+  end.
